@@ -8,7 +8,7 @@ na = json.load(open(os.path.join(V, "not_applicable.json"))) if os.path.exists(o
 checks = []
 for p in props:
     cid = p["id"]
-    if cid not in cs:
+    if cid not in cs or not cs[cid].get("ready"):
         continue
     s = cs[cid]
     checks.append({
@@ -24,7 +24,7 @@ for p in props:
     })
 nal = []
 for p in props:
-    if p["id"] not in cs:
+    if p["id"] not in cs or not cs[p["id"]].get("ready"):
         nal.append({"property_id": p["id"], "reason": na.get(p["id"], "no check built yet (work in progress); not claimed")})
 m = {
     "version": 1,
@@ -32,8 +32,8 @@ m = {
     "hooks": {"guard": "verif", "enable": "go test -tags verif -overlay <generated>: harness test files and (profile mc) rewritten sources are injected at build time by /verif/vcheck; no instrumentation is committed to /repo",
               "baseline_off_cmd": "python3 /verif/tools/baseline.py", "source_commits": [], "add_only": True},
     "engines": [
-        {"name": "seqx", "path": "engine/seqx", "serves_properties": [c for c in cs if cs[c]["profile"] in ("plain", "obs")], "kind_free_text": "exhaustive enumerators (all strings <= n, k-deviation products, op sequences, byte mutations) driving the real code against reference models (engine/refs) and scripted connections (engine/vnet)"},
-        {"name": "mcx", "path": "engine/mcrt", "serves_properties": [c for c in cs if cs[c]["profile"] not in ("plain", "obs")], "kind_free_text": "stateless model checker: controlled cooperative scheduler over the rewritten real sources (engine/mcgen), preemption/deviation-bounded DFS over schedules, select choices, virtual-time timer orders and environment answers"},
+        {"name": "seqx", "path": "engine/seqx", "serves_properties": [c for c in cs if cs[c]["profile"] in ("plain", "obs") and cs[c].get("ready")], "kind_free_text": "exhaustive enumerators (all strings <= n, k-deviation products, op sequences, byte mutations) driving the real code against reference models (engine/refs) and scripted connections (engine/vnet)"},
+        {"name": "mcx", "path": "engine/mcrt", "serves_properties": [c for c in cs if cs[c]["profile"] not in ("plain", "obs") and cs[c].get("ready")], "kind_free_text": "stateless model checker: controlled cooperative scheduler over the rewritten real sources (engine/mcgen), preemption/deviation-bounded DFS over schedules, select choices, virtual-time timer orders and environment answers"},
     ],
     "checks": checks,
     "not_applicable": nal,
